@@ -66,6 +66,7 @@ fn main() {
             image::run(seed, cases, &mut sink, &outdir, only)
         }
         "image-leak" => image::scenario_leak(&mut sink, &outdir),
+        "image-prefix-shrink" => image::scenario_prefix_shrink(&mut sink, &outdir),
         "image-cycles" => {
             let cycles: usize = arg(&args, "--cycles").and_then(|s| s.parse().ok()).unwrap_or(10);
             let nkeys: usize = arg(&args, "--keys").and_then(|s| s.parse().ok()).unwrap_or(300);
